@@ -19,6 +19,8 @@ impl Val {
     #[verifier::external_body]
     pub fn divide(&self, other: &Val) -> (r: Val) ensures r.v() == spec_arith('/', self.v(), other.v()) { unimplemented!() }
     #[verifier::external_body]
+    pub fn to_string_for_output(&self) -> (r: CowStr<'_>) ensures r.view() == spec_output(self.v()) { unimplemented!() }
+    #[verifier::external_body]
     pub fn negate(&self) -> (r: Result<Val, ValError>) ensures spec_negate(r, *self) { unimplemented!() }
 }
 
@@ -59,4 +61,10 @@ impl Thunk {
     pub fn call(&mut self) -> (r: Result<Val, RuntimeError>)
         ensures r == old(self).val@, final(self).calls@ == old(self).calls@ + 1, final(self).val@ == old(self).val@
     { unimplemented!() }
+}
+
+impl<'a> CowStr<'a> {
+    /// `&*cow` (Deref<Target = str>)
+    #[verifier::external_body]
+    pub fn as_str(&self) -> (r: &str) ensures r@ == self.view() { unimplemented!() }
 }
